@@ -8,6 +8,8 @@ package process
 // checked under and answer with a nondeterministic verdict).
 
 import (
+	"time"
+
 	"grits/position"
 	"grits/types"
 
@@ -69,17 +71,21 @@ type zzProbe struct {
 	boundSeen []Name
 	free      []Name
 	panics    bool
+	slow      time.Duration // the body takes this long to check
 }
 
-func (p *zzProbe) String() string                                          { return "probe" }
-func (p *zzProbe) StringShort() string                                     { return "probe" }
-func (p *zzProbe) Polarity(bool, *GlobalEnvironment) types.Polarity        { return types.UNKNOWN }
-func (p *zzProbe) FreeNames() []Name                                       { return p.free }
-func (p *zzProbe) Substitute(Name, Name)                                   {}
-func (p *zzProbe) Transition(*Process, *RuntimeEnvironment)                {}
-func (p *zzProbe) TransitionNP(*Process, *RuntimeEnvironment)              {}
+func (p *zzProbe) String() string                                   { return "probe" }
+func (p *zzProbe) StringShort() string                              { return "probe" }
+func (p *zzProbe) Polarity(bool, *GlobalEnvironment) types.Polarity { return types.UNKNOWN }
+func (p *zzProbe) FreeNames() []Name                                { return p.free }
+func (p *zzProbe) Substitute(Name, Name)                            {}
+func (p *zzProbe) Transition(*Process, *RuntimeEnvironment)         {}
+func (p *zzProbe) TransitionNP(*Process, *RuntimeEnvironment)       {}
 func (p *zzProbe) typecheckForm(g NamesTypesCtx, shadow *Name, prov types.SessionType, a types.LabelledTypesEnv, sigma FunctionTypesEnv, globalEnv *GlobalEnvironment) *TypeError {
 	p.called++
+	if p.slow > 0 {
+		time.Sleep(p.slow)
+	}
 	if p.panics {
 		panic("internal failure injected by the probe")
 	}
